@@ -34,7 +34,7 @@ META = {
             "fractures not aligned with grid lines (snapping), fractures lying in the domain boundary, overlapping coplanar fractures "
             "(rejected by porepy), more than 3 fractures. Exploration level, no claim beyond the enumerated family.",
     "note": "requires: fracture vertices on grid nodes, fractures on interior grid lines/planes, two fractures never share a cell "
-            "(no coplanar overlap); tolerance 1e-12 relative to the domain size for centres/measures, except 1e-9 for non-dyadic "
+            "(no coplanar overlap), three fractures never share a line segment; tolerance 1e-12 relative to the domain size for centres/measures, except 1e-9 for non-dyadic "
             "cell sizes in 3-D where structured._create_embedded_2d_grid rounds local coordinates to 1e-10; the integer box "
             "model of the fracture network is the trusted oracle",
 }
@@ -95,7 +95,8 @@ def frac_box_3d(f):
 
 
 def network_model(boxes, nd):
-    """Expected objects of every dimension.  Returns None when the set is inadmissible (two fractures share a cell)."""
+    """Expected objects of every dimension.  Returns None when the set is inadmissible (two fractures share a cell, or
+    three fractures share a line segment)."""
     nF = len(boxes)
     for i, j in itertools.combinations(range(nF), 2):
         x = box_isect(boxes[i], boxes[j])
@@ -108,6 +109,11 @@ def network_model(boxes, nd):
         x = box_isect(boxes[i], boxes[j])
         if x is not None and box_dim(x) == nd - 2:
             segs.append(x)
+    # requires: intersection lines of different fracture pairs meet in points only (no three fractures along one line)
+    for s1, s2 in itertools.combinations(segs, 2):
+        x = box_isect(s1, s2)
+        if x is not None and box_dim(x) >= 1:
+            return None
     low_cells = set()
     for s in segs:
         low_cells |= set(cell_center2(c) for c in unit_cells(s))
@@ -118,9 +124,6 @@ def network_model(boxes, nd):
         for n, s in enumerate(segs):
             for p in itertools.product(*[range(lo, hi + 1) for lo, hi in s]):
                 nodes.setdefault(p, set()).add(n)
-        seg_set = {}
-        for n, s in enumerate(segs):
-            seg_set.setdefault(s, []).append(n)
         for p, ns in nodes.items():
             if len({segs[n] for n in ns}) >= 2:
                 points.add(tuple(2 * x for x in p))
@@ -241,7 +244,7 @@ def check_case(pp, np, nd, nx, phys, fracs, reverse=False, tol_rel=1e-12):
             if abs(float(g.cell_volumes[c]) - measure_of(c2)) > tol_rel * max(1.0, scale ** g.dim) and g.dim < nd:
                 bad("lower-dimensional cells: measure equals the measure of their unit cell", f"dim {g.dim} cell {c}: {g.cell_volumes[c]!r} expected {measure_of(c2)!r}")
         if worst > tol:
-            bad("lower-dimensional cells: centres lie on the grid lines / planes of their fracture", f"dim {g.dim}: centre off by {worst:.3e}")
+            bad("lower-dimensional cells: centres lie on grid lines/planes", f"dim {g.dim}: centre off by {worst:.3e}")
         cellsets[g] = cs
     fr_grids = [g for g in subs if g.dim == nd - 1]
     nums = sorted(getattr(g, "frac_num", None) for g in fr_grids)
@@ -255,12 +258,12 @@ def check_case(pp, np, nd, nx, phys, fracs, reverse=False, tol_rel=1e-12):
     low = [g for g in subs if g.dim == nd - 2]
     got_low = [c for g in low for c in cellsets[g]]
     if sorted(got_low) != sorted(model["low_cells"]):
-        bad("intersections: grids of dimension nd-2 tile exactly the pairwise fracture intersections",
+        bad("intersections: (nd-2)-grids tile exactly the pairwise intersections",
             f"{len(got_low)} cells (distinct {len(set(got_low))}) expected {len(model['low_cells'])}")
     if nd == 3:
         pts = [c for g in subs if g.dim == 0 for c in cellsets[g]]
         if sorted(pts) != sorted(model["points"]):
-            bad("intersections: 0-d grids are exactly the points where intersection lines meet", f"got {sorted(pts)} expected {sorted(model['points'])}")
+            bad("intersections: 0-d grids are the meeting points of intersection lines", f"got {sorted(pts)} expected {sorted(model['points'])}")
 
     # ---- region of every grid (oracle side): host = domain, fracture k = its box, lower = extent of its own tiles
     def region(g):
@@ -294,12 +297,12 @@ def check_case(pp, np, nd, nx, phys, fracs, reverse=False, tol_rel=1e-12):
             c2 = cellsets[lo][c]
             exp_sides = 2 if strictly_inside(c2, reg) else 1
             if not in_box(c2, reg):
-                bad("interfaces: exist exactly between a grid and the lower-dimensional objects lying in it", f"{tag}: cell centre {c2} (x2 index) outside the higher object {reg}")
+                bad("interfaces: exactly between a grid and the objects lying in it", f"{tag}: cell centre {c2} (x2 index) outside the higher object {reg}")
             if exp_sides == 1:
                 n_one_sided += 1
                 all_two = False
             if len(faces) != exp_sides or len(set(faces.tolist())) != len(faces):
-                bad("coupling: one host face per side (one side only where the higher-dimensional fracture ends on the cell)",
+                bad("coupling: one host face per side (one side where a fracture ends)",
                     f"{tag}: cell {c} at x2-index {c2} coupled to {len(faces)} faces, expected {exp_sides}")
                 continue
             outward = []
@@ -308,7 +311,7 @@ def check_case(pp, np, nd, nx, phys, fracs, reverse=False, tol_rel=1e-12):
                 row = cf_hi.indices[cf_hi.indptr[f]:cf_hi.indptr[f + 1]]
                 sgn = cf_hi.data[cf_hi.indptr[f]:cf_hi.indptr[f + 1]]
                 if len(row) != 1:
-                    bad("coupling: coupled host faces are split (boundary) faces with exactly one neighbouring cell", f"{tag}: face {f} has {len(row)} cells")
+                    bad("coupling: coupled faces are split faces with one neighbour cell", f"{tag}: face {f} has {len(row)} cells")
                     continue
                 d = float(np.max(np.abs(hi.face_centers[:, f] - lo.cell_centers[:, c])))
                 if d > tol:
@@ -334,9 +337,9 @@ def check_case(pp, np, nd, nx, phys, fracs, reverse=False, tol_rel=1e-12):
                 ok = float(np.max(np.abs(sg.cell_volumes - lo.cell_volumes), initial=0.0)) <= tol_rel * max(1.0, scale ** lo.dim) and \
                     float(np.max(np.abs(sg.cell_centers - lo.cell_centers), initial=0.0)) <= tol
             if not ok:
-                bad("mortar: every side grid matches the lower-dimensional cells in number, centre and size", f"{tag}: side {side}: {sg.num_cells} cells vs {lo.num_cells}")
+                bad("mortar: side grids match the lower cells in number, centre, size", f"{tag}: side {side}: {sg.num_cells} cells vs {lo.num_cells}")
         if intf.num_cells != exp_ns * lo.num_cells:
-            bad("mortar: every side grid matches the lower-dimensional cells in number, centre and size", f"{tag}: mortar cells {intf.num_cells}")
+            bad("mortar: side grids match the lower cells in number, centre, size", f"{tag}: mortar cells {intf.num_cells}")
             continue
         # the coupling seen through the mortar projections: mortar cell m = side*n + c <-> one face of cell c, one per side
         P = intf.primary_to_mortar_int().tocsr()
@@ -364,12 +367,12 @@ def check_case(pp, np, nd, nx, phys, fracs, reverse=False, tol_rel=1e-12):
                 used = [int(P.indices[P.indptr[m]]) for m in range(intf.num_cells)]
                 okp = len(set(used)) == len(used)
         if not okp:
-            bad("mortar: projections couple mortar cell (side, c) to cell c and to one of its host faces, a different one per side", tag)
+            bad("mortar: cell (side, c) projects to cell c and one host face per side", tag)
         else:
             for sd_, dirs in side_dirs.items():
                 ref = dirs[0]
                 if any(float(np.dot(ref, d)) < 1.0 - 1e-9 for d in dirs):
-                    bad("mortar: the host faces of one mortar side all lie on the same geometric side of the fracture", f"{tag}: side {sd_}")
+                    bad("mortar: faces of one side lie on one geometric side", f"{tag}: side {sd_}")
 
     # ---- interfaces exist exactly between a grid and the lower-dimensional objects lying in it
     for hi in subs:
@@ -379,7 +382,7 @@ def check_case(pp, np, nd, nx, phys, fracs, reverse=False, tol_rel=1e-12):
             reg = region(hi)
             exp = all(in_box(c2, reg) for c2 in cellsets[lo]) and len(cellsets[lo]) > 0
             if exp != ((hi, lo) in seen_pairs):
-                bad("interfaces: exist exactly between a grid and the lower-dimensional objects lying in it",
+                bad("interfaces: exactly between a grid and the objects lying in it",
                     f"{hi.dim}d-{lo.dim}d pair: expected {'an' if exp else 'no'} interface, lower cells {cellsets[lo][:3]} higher object {reg}")
 
     # ---- (3) fracture-face tags mark exactly the coupled faces
@@ -397,11 +400,21 @@ def check_case(pp, np, nd, nx, phys, fracs, reverse=False, tol_rel=1e-12):
     return "ok", fails, info
 
 
-def classify(nd, fracs, info):
+def classify(nd, fracs):
+    """Configuration class of a fracture set, from the box model only (used as violation signature)."""
     n = len(fracs)
     if n == 0:
         return "no fracture"
-    kind = "isolated" if info.get("n_low", 0) == 0 else ("T/L/end contact" if info.get("one_sided", 0) else "X crossing")
+    boxes = [frac_box_2d(f) if nd == 2 else frac_box_3d(f) for f in fracs]
+    model = network_model(boxes, nd)
+    if model is None:
+        return "overlapping"
+    if not model["low_cells"]:
+        kind = "isolated"
+    elif all(strictly_inside(c, b) for c in model["low_cells"] for b in boxes if in_box(c, b)):
+        kind = "X crossing"
+    else:
+        kind = "T/L/end contact"
     return f"{nd}-d, {n} fracture{'s' if n > 1 else ''}, {kind}"
 
 
@@ -414,8 +427,7 @@ def families(tier, rng):
     # ---- 2-D base grid 3x3, unit cells: exhaustive over sets of <= 2 (quick) / <= 3 (thorough) fractures
     nx = (3, 3)
     F = all_fracs_2d(nx)
-    yield 2, nx, (3, 3), (), False, 1e-12
-    for k in (1, 2):
+    for k in (2, 1, 0):
         for fs in itertools.combinations(F, k):
             yield 2, nx, (3, 3), fs, False, 1e-12
     triples = list(itertools.combinations(F, 3))
@@ -472,7 +484,8 @@ def run(rep):
     rep.under_contract("pp.meshing.cart_grid", "porepy.fracs.structured._cart_grid_2d", "porepy.fracs.structured._cart_grid_3d",
                        "porepy.fracs.meshing._tag_faces", "porepy.fracs.meshing._assemble_mdg", "porepy.fracs.split_grid.split_fractures",
                        "porepy.fracs.meshing.create_interfaces", "MortarGrid.__init__ / _init_projections (matching case)")
-    rep.assume("requires: fracture vertices on grid nodes, fractures on interior grid lines/planes, no two fractures share a cell",
+    rep.assume("requires: fracture vertices on grid nodes, fractures on interior grid lines/planes, no two fractures share a cell, no three "
+               "fractures share a line segment (3-D)",
                "simplex (gmsh) meshing is not applicable to this checker and not claimed",
                "3-D, non-dyadic cell size: tolerance 1e-9 because structured._create_embedded_2d_grid rounds local coordinates to 1e-10")
     rep.trust("exact integer box model of the fracture network (sidecar oracle)")
@@ -493,8 +506,8 @@ def run(rep):
                 sw.skip()
                 continue
             inputs = {"nd": nd, "nx": list(nx), "physdims": list(phys), "fracs": [list(f) for f in fracs], "reverse": reverse, "tol_rel": tolr}
-            sw.case(key=(nd, nx, phys, fracs), nontrivial=len(fracs) > 0, sample=inputs if len(fracs) == 2 else None)
-            cls = classify(nd, fracs, info)
+            sw.case(key=(nd, nx, phys, fracs), nontrivial=len(fracs) > 0, sample=inputs)
+            cls = classify(nd, fracs)
             classes[cls] = classes.get(cls, 0) + 1
             for ob, detail in fails:
                 rep.violation(ob, cls, inputs=inputs, detail=detail, confirmed=True)
